@@ -324,7 +324,7 @@ pub fn model(
     base_yielded: &BTreeSet<String>,
     dirs: &BTreeSet<String>,
     nlayers: usize,
-    verdict: &dyn Fn(usize, &str) -> Option<Verdict>,
+    verdict: &dyn Fn(usize, &str, bool) -> Option<Verdict>,
 ) -> Expected {
     let mut fed = vec![];
     let mut yielded = vec![];
@@ -344,7 +344,10 @@ pub fn model(
         fed.push(e.clone());
         let mut keep = true;
         for l in 0..nlayers {
-            match verdict(l, e) {
+            // the flag tells whether the entry reaches this layer as filtrate (kept by the base
+            // walk and by every layer before this one); only the mirror of a recorded finding
+            // looks at it
+            match verdict(l, e, keep && base_yielded.contains(e)) {
                 None => {},
                 Some(Verdict::File) => keep = false,
                 Some(Verdict::Tree) => {
@@ -403,6 +406,8 @@ struct Judged {
     problems_c16: Vec<String>,
     problems_c03: Vec<String>,
     class: Option<String>,
+    /// the run is exactly what the mirror of `residue-relative-to-traversal-root` predicts
+    residue_mirror: bool,
 }
 
 /// Compares one run with the model.
@@ -420,14 +425,38 @@ fn judge(
     // verdict per layer: filters from the history; negations per entry from the pattern itself
     // (per-entry semantics: matched => discarded; a tree discard is what the installed
     // exhaustive partition asks for)
-    let verdict = |l: usize, e: &str| -> Option<Verdict> {
+    let verdict = |l: usize, e: &str, _filtrate: bool| -> Option<Verdict> {
         match &layers[l] {
             Layer::Filter(id) => history.get(&(*id, e.to_string())).copied(),
             Layer::Not(..) => not_models.get(&l).and_then(|m| m.installed(base_rel(e))),
         }
     };
     let exp = model(&base_run.fed, &base_yielded, &dirs, layers.len(), &verdict);
-    let mut j = Judged { problems_c13: vec![], problems_c16: vec![], problems_c03: vec![], class: None };
+    let mut j = Judged { problems_c13: vec![], problems_c16: vec![], problems_c03: vec![], class: None, residue_mirror: false };
+    // Mirror of the recorded finding `residue-relative-to-traversal-root` (D5): over a glob walk
+    // with a non-empty invariant prefix, an entry that reaches a negation as residue (discarded
+    // by the walker or by an earlier layer) is matched by its path relative to the traversal
+    // root (base joined with the prefix) instead of the base. A run is attributed to the finding
+    // only if this mirror reproduces everything observed (fed, calls, yielded).
+    let pivot = match base {
+        BaseWalk::Glob(g) => Glob::new(g).map_or(0, |g| g.clone().partition().0.components().count()),
+        BaseWalk::Path => 0,
+    };
+    if pivot > 0 && layers.iter().any(|l| matches!(l, Layer::Not(..))) {
+        let strip = |e: &str| -> String { e.split('/').skip(pivot).collect::<Vec<_>>().join("/") };
+        let verdict_d5 = |l: usize, e: &str, filtrate: bool| -> Option<Verdict> {
+            match &layers[l] {
+                Layer::Filter(id) => history.get(&(*id, e.to_string())).copied(),
+                Layer::Not(..) => not_models.get(&l).and_then(|m| if filtrate { m.installed(base_rel(e)) } else { m.installed(&strip(e)) }),
+            }
+        };
+        let exp5 = model(&base_run.fed, &base_yielded, &dirs, layers.len(), &verdict_d5);
+        let calls_ok = layers.iter().all(|l| match l {
+            Layer::Filter(id) => run.calls.get(id).cloned().unwrap_or_default() == exp5.fed,
+            _ => true,
+        });
+        j.residue_mirror = run.fed == exp5.fed && run.yielded == exp5.yielded && calls_ok;
+    }
     // C13: the terminal consumer is fed exactly the pruned tree
     if run.fed != exp.fed {
         let extra: Vec<&String> = run.fed.iter().filter(|e| !exp.fed.contains(e)).collect();
@@ -501,7 +530,7 @@ fn judge(
                             && crate::props_query::some_alternative_claims_always(&asts, a)
                     })
                 });
-            if prefixed {
+            if prefixed && j.residue_mirror {
                 j.class = Some("residue-relative-to-traversal-root".into());
             }
             else if beneath_exhaustive {
@@ -689,7 +718,8 @@ pub fn c13_c16(tier: Tier, which: &'static str) -> i32 {
                     bump(&mut c, "histories", histories.len() as u64);
                     for h in &histories {
                         *c.entry(match h.len() { 0 => "histories_0_deviations", 1 => "histories_1_deviation", 2 => "histories_2_deviations", _ => "histories_3_deviations" }).or_insert(0) += 1;
-                        let mut yields: Vec<(Vec<Layer>, Vec<String>)> = vec![];
+                        // (permutation, yielded, deviates from the model exactly as the recorded mirror predicts)
+                        let mut yields: Vec<(Vec<Layer>, Vec<String>, bool)> = vec![];
                         for perm in &perms {
                             let run = match execute(&place, base, perm, h) {
                                 Ok(r) => r,
@@ -716,7 +746,7 @@ pub fn c13_c16(tier: Tier, which: &'static str) -> i32 {
                             let j = judge(world, base, &base_run, perm, h, &nm, &run);
                             let (problems, label) = if which == "C13" { (&j.problems_c13, "C13") } else { (&j.problems_c16, "C16") };
                             if !problems.is_empty() {
-                                let class = classify_stack(base, perm);
+                                let class = if j.residue_mirror { Some("residue-relative-to-traversal-root".to_string()) } else { None };
                                 rep.alarm(Alarm {
                                     class,
                                     key: format!("{} {} {:?} {:?} {:?}", label, world.describe(), base, perm, h),
@@ -731,18 +761,20 @@ pub fn c13_c16(tier: Tier, which: &'static str) -> i32 {
                                     case: case_json(world, base, perm, h),
                                 });
                             }
-                            yields.push((perm.clone(), run.yielded.clone()));
+                            yields.push((perm.clone(), run.yielded.clone(), j.residue_mirror && !(j.problems_c13.is_empty() && j.problems_c16.is_empty())));
                         }
                         // order independence (C16)
                         if which == "C16" {
-                            for (perm, y) in yields.iter().skip(1) {
+                            for (perm, y, mirrored) in yields.iter().skip(1) {
                                 let mut a = y.clone();
                                 let mut b = yields[0].1.clone();
                                 a.sort();
                                 b.sort();
                                 if a != b {
                                     rep.alarm(Alarm {
-                                        class: classify_stack(base, perm),
+                                        // the two orders differ because one of them (or both) deviates
+                                        // from the model exactly as the recorded mirror predicts
+                                        class: if *mirrored || yields[0].2 { Some("residue-relative-to-traversal-root".to_string()) } else { None },
                                         key: format!("perm {} {:?} {:?} {:?}", world.describe(), base, perm, h),
                                         msg: format!(
                                             "order dependence over {} in {} with history [{}]: {} yields {:?} but {} yields {:?}",
@@ -793,22 +825,6 @@ pub fn c13_c16(tier: Tier, which: &'static str) -> i32 {
             "what the base walk alone feeds and yields is taken as given (C02 decides it)".into(),
         ],
     )
-}
-
-/// Structural predicates of recorded findings for C13/C16: over a glob walk with a non-empty
-/// invariant prefix, entries that an upstream layer (or the walker) has already discarded reach a
-/// negation as plain tree entries whose relative path is taken from the traversal root.
-fn classify_stack(base: &BaseWalk, layers: &[Layer]) -> Option<String> {
-    let prefixed = match base {
-        BaseWalk::Glob(g) => Glob::new(g).map_or(false, |g| !g.clone().partition().0.as_os_str().is_empty()),
-        BaseWalk::Path => false,
-    };
-    if prefixed && layers.iter().any(|l| matches!(l, Layer::Not(..))) {
-        Some("residue-relative-to-traversal-root".into())
-    }
-    else {
-        None
-    }
 }
 
 // ---------------------------------------------------------------------------------------------
